@@ -70,3 +70,51 @@ REG.fn(F_, "solve_sat.assign", prop="C01,C02", captures=CAP, types={"var": "int"
                 "forall(v, implies(0 <= v < len(vals) and v != var, vals[v] == old(vals)[v]), trig=vals[v])",
                 "len(vals) == old(len(vals))"],
        modifies=["trail", "vals", "levels", "reasons", "propagations"])
+
+# ------------------------------------------------------------------ clause-database reduction keeps blocking clauses
+REG.cls(F_, "BinaryImplications", fields={"pos": "list[list[tuple[int,int]]]", "neg": "list[list[tuple[int,int]]]"})
+REG.fn(F_, "BinaryImplications.add", prop="C01", trusted=True, types={"lit_a": "int", "lit_b": "int", "clause_idx": "int"},
+       ensures=["len(self.pos) == old(len(self.pos))", "len(self.neg) == old(len(self.neg))"], modifies=["self.pos", "self.neg"],
+       note="assumed: only appends to the implication lists")
+REG.fn(F_, "BinaryImplications.clear_learned", prop="C01", trusted=True, types={"original_count": "int"},
+       ensures=["len(self.pos) == old(len(self.pos))", "len(self.neg) == old(len(self.neg))"], modifies=["self.pos", "self.neg"],
+       note="assumed: only filters the implication lists")
+WCAP = {"watch_pos": "list[list[int]]", "watch_neg": "list[list[int]]"}
+REG.fn(F_, "solve_sat.add_watch", prop="C01", captures=WCAP, types={"lit": "int", "idx": "int"},
+       requires=["lit != 0", "-len(watch_pos) < lit < len(watch_pos)", "len(watch_neg) == len(watch_pos)"],
+       ensures=["len(watch_pos) == old(len(watch_pos))", "len(watch_neg) == old(len(watch_neg))"],
+       modifies=["watch_pos", "watch_neg"])
+
+RCAP = dict(WCAP, learned="list[list[int]]", lbd_scores="list[int]", clauses="list[list[int]]", n_vars="int",
+            big="obj<BinaryImplications>")
+WF = "forall(i, k, implies(0 <= i < len({L}) and 0 <= k < len({L}[i]), {L}[i][k] != 0 and -n_vars <= {L}[i][k] <= n_vars), trig={L}[i][k])"
+REG.fn(F_, "solve_sat.reduce_db", prop="C01", captures=RCAP,
+       types={"indexed": "list[tuple[int,list[int]]]", "keep": "list[list[int]]", "keep_lbd": "list[int]",
+              "_comp3": "list[int]", "_comp4": "list[int]", "kpos": "map[int,int]", "src": "map[int,int]"},
+       requires=["len(lbd_scores) == len(learned)", "n_vars >= 0", "len(watch_pos) == n_vars + 1", "len(watch_neg) == n_vars + 1",
+                 WF.format(L="learned")],
+       ghost_before=[("keep, keep_lbd = (", "kpos", "lam(p, 0)"),
+                     # src[i] = position of the old clause i in the sorted list (the permutation's inverse)
+                     ("keep, keep_lbd = (", "src", "_perm_inv")],
+       ghost_after=[("keep_lbd.append(", "kpos", "store(kpos, _k1, len(keep) - 1)")],
+       ensures=[
+           "len(lbd_scores) == len(learned)",
+           "implies(old(len(learned)) < 2000, learned == old(learned) and lbd_scores == old(lbd_scores))",
+           # every clause whose score is at most 3 survives with its score - in particular every blocking clause
+           # (recorded with score 0), however many clauses the database holds
+           # (witness form: the old clause i sits at position kpos[src[i]] of the new list; below 2000 clauses nothing changes)
+           "implies(defined('kpos'), forall(i, implies(0 <= i < old(len(learned)) and old(lbd_scores)[i] <= 3, 0 <= kpos[src[i]] < len(learned) and learned[kpos[src[i]]] == old(learned)[i] and lbd_scores[kpos[src[i]]] == old(lbd_scores)[i]), trig=src[i]))",
+           # nothing is invented: every kept clause is one of the old ones
+           "forall(j, implies(0 <= j < len(learned), exists(i, 0 <= i < old(len(learned)) and learned[j] == old(learned)[i])), trig=learned[j])",
+       ],
+       modifies=["learned", "lbd_scores", "watch_pos", "watch_neg", "big.pos", "big.neg"],
+       loops={
+           1: LoopSpec(index="_k1", invariants=[
+               "len(keep) == len(keep_lbd)", "len(indexed) == old(len(learned))", "learned == old(learned)", "lbd_scores == old(lbd_scores)",
+               "forall(i, implies(0 <= i < len(learned), 0 <= src[i] < len(indexed) and indexed[src[i]][0] == i and indexed[src[i]][1] == learned[i]), trig=src[i])",
+               "forall(p, implies(0 <= p < _k1 and (p < len(indexed) // 2 or lbd_scores[indexed[p][0]] <= 3), 0 <= kpos[p] < len(keep) and keep[kpos[p]] == indexed[p][1] and keep_lbd[kpos[p]] == lbd_scores[indexed[p][0]]), trig=indexed[p])",
+               "forall(j, implies(0 <= j < len(keep), exists(p, 0 <= p < _k1 and keep[j] == indexed[p][1])), trig=keep[j])"]),
+           2: LoopSpec(invariants=["len(watch_pos) == n_vars + 1", "len(watch_neg) == n_vars + 1"]),
+           3: LoopSpec(invariants=[]), 4: LoopSpec(invariants=[]),
+           5: LoopSpec(invariants=["len(watch_pos) == n_vars + 1", "len(watch_neg) == n_vars + 1"]),
+       })
